@@ -83,7 +83,7 @@ type totalPend struct {
 // no panic / fatal, and after an error the destination equals an independently built snapshot of the prior value.
 func RunTotal(cfg *TotalConfig) (*Report, error) {
 	t0 := time.Now()
-	rep := &Report{GenFail: map[string]int{}, CompileFail: map[string]int{}, ByClass: map[string]int{}, DontCare: map[string]int{},
+	rep := &Report{ByStratum: map[string]int{}, GenFail: map[string]int{}, CompileFail: map[string]int{}, ByClass: map[string]int{}, DontCare: map[string]int{},
 		Sigs: map[string]bool{}, Known: map[string]int{}, KnownExamples: map[string]string{}}
 	ks := known.Load()
 	if cfg.BatchSz == 0 {
